@@ -57,8 +57,8 @@ def handle (fn : String) (a : List Float) : Option String :=
         -- oriented from the surface with index 0 to the other one
         let canon (c : Option (Contact Float)) : Option (Contact Float) :=
           c.map (fun c => { c with s1 := 0, s2 := 1, normal := c.normalFrom 0 })
-        if ord == 0 then some (outContact fn (canon (detect Float.sqrt A B)))
-        else some (outContact fn (canon (detect Float.sqrt { B with idx := 0 } { A with idx := 1 })))
+        if ord == 0 then some (outContact fn (canon (detect Float.sqrt (fun _ _ => none) A B)))
+        else some (outContact fn (canon (detect Float.sqrt (fun _ _ => none) { B with idx := 0 } { A with idx := 1 })))
       else none
     | _ => none
   | _ => none
